@@ -218,7 +218,7 @@ func runC06E2E(t *Trace, r *Rng, tier string) {
 				}
 				size := r.Intn(nDocs + 2)
 				afterTok := "A 0 " + strings.Join(keyToks, " ")
-				req := mkReq(size, r.Intn(3))
+				req := mkReq(size, 0) // From must be 0 with SearchAfter/SearchBefore (SearchRequest.Validate)
 				if r.Bool() {
 					req.SearchAfter = keys
 					sr, err := idx.Search(req)
